@@ -60,19 +60,28 @@ pub struct GlideM {
     pub prev_x: Option<f32>,
     pub prev_y: f32,
     pub held: u32,
+    /// error bound inherited from slower settings that were in effect earlier (decays with the current pole)
+    pub carry: f64,
     pub inputs: std::sync::Arc<Vec<f32>>,
     pub tmenu: std::sync::Arc<Vec<f32>>,
 }
 
 impl GlideM {
     pub fn new(fs: f32, inputs: Vec<f32>, tmenu: Vec<f32>) -> Self {
-        GlideM { g: GlideProcessor::new(fs), fs, times: TimeSet::new(), lo: 0.0, hi: 0.0, mag: 0.0, prev_x: None, prev_y: 0.0, held: 0, inputs: std::sync::Arc::new(inputs), tmenu: std::sync::Arc::new(tmenu) }
+        GlideM { g: GlideProcessor::new(fs), fs, times: TimeSet::new(), lo: 0.0, hi: 0.0, mag: 0.0, prev_x: None, prev_y: 0.0, held: 0, carry: 0.0, inputs: std::sync::Arc::new(inputs), tmenu: std::sync::Arc::new(tmenu) }
     }
+    /// f32 resolution of a one-pole filter: about five roundings of half an ulp per sample plus the rounding of
+    /// the coefficients (DC gain off by 2^-24/(1-p)), all amplified by 1/(1-p): 4 ulp(M)/(1-p) bounds them
     pub fn allowance(&self) -> f64 {
-        2.0 * ulp32(self.mag.max(f32::MIN_POSITIVE)) as f64 / one_minus_p(self.times.max(), self.fs)
+        4.0 * ulp32(self.mag.max(f32::MIN_POSITIVE)) as f64 / one_minus_p(self.times.max(), self.fs) + self.carry
     }
     fn sample(&mut self, x: f32, fnd: &mut Vec<Finding>, out: &mut StepOut) {
         let y = self.g.process(x);
+        // what was inherited from an earlier, slower setting dies away with the pole of the current one
+        self.carry *= 1.0 - one_minus_p(self.times.max(), self.fs);
+        if self.carry < 1.0e-300 {
+            self.carry = 0.0;
+        }
         self.lo = self.lo.min(x);
         self.hi = self.hi.max(x);
         self.mag = self.mag.max(x.abs()).max(if y.is_finite() { y.abs() } else { 0.0 });
@@ -155,8 +164,11 @@ impl Machine for GlideM {
                 }
             }
             GOp::SetTime(t) => {
+                // the deviation the output may carry right now stays allowed after the change (and then decays)
+                let before = self.allowance();
                 self.g.set_time(t);
                 self.times.request(t);
+                self.carry = (before - 4.0 * ulp32(self.mag.max(f32::MIN_POSITIVE)) as f64 / one_minus_p(self.times.max(), self.fs)).max(0.0);
                 out.count("set_time_calls");
                 if self.prev_x.map(|x| x != self.prev_y).unwrap_or(false) {
                     out.count("set_time_calls_while_gliding");
@@ -176,13 +188,14 @@ impl Machine for GlideM {
         h.word(self.lo.to_bits() as u64 | (self.hi.to_bits() as u64) << 32);
         h.word(self.mag.to_bits() as u64 | (self.held.min(2) as u64) << 32);
         h.word(self.prev_x.map(|x| x.to_bits() as u64 + 1).unwrap_or(0));
+        h.word(self.carry.to_bits());
         for t in &self.times.0 {
             h.word(t.to_bits() as u64);
         }
         h.finish()
     }
     fn fork(&self) -> Self {
-        GlideM { g: self.g.verif_clone(), fs: self.fs, times: self.times.clone(), lo: self.lo, hi: self.hi, mag: self.mag, prev_x: self.prev_x, prev_y: self.prev_y, held: self.held, inputs: self.inputs.clone(), tmenu: self.tmenu.clone() }
+        GlideM { g: self.g.verif_clone(), fs: self.fs, times: self.times.clone(), lo: self.lo, hi: self.hi, mag: self.mag, prev_x: self.prev_x, prev_y: self.prev_y, held: self.held, carry: self.carry, inputs: self.inputs.clone(), tmenu: self.tmenu.clone() }
     }
     fn op_str(op: &GOp) -> String {
         match op {
@@ -220,7 +233,7 @@ fn viol(prop: &'static str, class: &str, detail: String, fs: f32, ops: Vec<Strin
 
 pub fn c13(ctx: &Ctx) -> Report {
     let mut rep = Report::new();
-    rep.rule.push("E1: plain enumeration of ALL operation sequences to a depth (no state merging) on the real glide processor: process(x) for x in {0, 1, -1, 0.5, 10}, two 8-sample holds, set_time(t) for ten times from 0 to 10 s incl. 1/fs..5/fs; plus all schedules with <= 2 set_time calls at every sample index of a 40-sample glide; plus long holds (8*t*fs samples) for convergence; after every sample: output within [min(0, inputs), max(0, inputs)] +- A, with A = 2*ulp(M)/(1-p); while the input is held, from the second held sample on, the output never moves away from it nor crosses it (beyond A); non-trivial = held samples checked while the output was still moving".into());
+    rep.rule.push("E1: plain enumeration of ALL operation sequences to a depth (no state merging) on the real glide processor: process(x) for x in {0, 1, -1, 0.5, 10}, two 8-sample holds, set_time(t) for ten times from 0 to 10 s incl. 1/fs..5/fs; plus all schedules with <= 2 set_time calls at every sample index of a 40-sample glide; plus long holds (8*t*fs samples) for convergence; after every sample: output within [min(0, inputs), max(0, inputs)] +- A, with A = 4*ulp(M)/(1-p); while the input is held, from the second held sample on, the output never moves away from it nor crosses it (beyond A); non-trivial = held samples checked while the output was still moving".into());
     let thorough = ctx.tier.is_thorough();
     let rates: Vec<(f32, u32)> = if thorough { vec![(100.0, 6), (1000.0, 6), (48000.0, 6), (441.0, 5), (8000.0, 5), (44100.0, 5), (12345.0, 5)] } else { vec![(100.0, 5), (1000.0, 5), (48000.0, 5), (441.0, 4), (44100.0, 4)] };
     for (fs, depth) in rates {
@@ -374,7 +387,7 @@ pub fn c13(ctx: &Ctx) -> Report {
     rep.require_nonzero("long_holds");
     rep.require_nonzero("integer_rate_fast_settings");
     rep.sample(json!({"script": {"machine": "glide", "config": {"fs": 1000.0}, "ops": ["set_time:1.0", "process:0.0", "process:1.0*500", "set_time:0.0", "process:1.0*8"]}, "meaning": "switching the glide off in the middle of a glide"}));
-    rep.assumptions.push("inputs, times and sample rates are the stated menus; allowance A = 2*ulp(M)/(1-p) with p = 1 - min(1, 2*pi/(t*fs)) for the largest time that may be in effect".into());
+    rep.assumptions.push("inputs, times and sample rates are the stated menus; allowance A = 4*ulp(M)/(1-p) with p = 1 - min(1, 2*pi/(t*fs)) for the largest time that may be in effect".into());
     rep
 }
 
@@ -417,10 +430,10 @@ fn settle_and_step(g: &mut GlideProcessor, fs: f32, t_settle: f32, a: f32, b: f3
 
 pub fn c14(ctx: &Ctx) -> Report {
     let mut rep = Report::new();
-    rep.rule.push("(a) E2 over the plane: 6 sample rates x a x1.5 geometric grid of times from 100/fs to 10 s (plus 20, 100, 1e6 s compared with 10 s, and the sub-2-sample times 0, 0.1/fs, 1/fs, 1.9/fs) x 6 steps: the real processor is settled, stepped, and the fraction covered after t and t/10 seconds is compared with the statement's bounds (+- the f32 allowance); (b) E1: all set_time schedules of length <= 4 over a 9-time menu and creeping ramps: the measured step response must satisfy the criterion for a time the 0.05 s dead-band rule allows to be in effect; non-trivial = step responses measured with >= 100 samples per t".into());
+    rep.rule.push("(a) E2 over the plane: 9 sample rates x a geometric grid of times (x1.5 quick, x1.13 thorough) from 100/fs to 10 s (plus 20, 100, 1e6 s compared with 10 s, and the sub-2-sample times 0, 0.1/fs, 1/fs, 1.9/fs) x 9 steps (incl. steps that are a tiny fraction of the level they sit on), plus every integer sample rate x 3 times from rest: the real processor is settled, stepped, and the fraction covered after t and t/10 seconds is compared with the statement's bounds (+- the f32 allowance); (b) E1: all set_time schedules of length <= 4 over a 9-time menu and creeping ramps: the measured step response must satisfy the criterion for a time the 0.05 s dead-band rule allows to be in effect; non-trivial = step responses measured with >= 100 samples per t".into());
     let thorough = ctx.tier.is_thorough();
     let rates: [f32; 9] = [100.0, 441.0, 1000.0, 8000.0, 44100.0, 48000.0, 22050.0, 12345.0, 250.0];
-    let steps: [(f32, f32); 6] = [(0.0, 1.0), (1.0, 0.0), (0.0, 10.0), (-1.0, 1.0), (0.25, 0.75), (5.0, 5.083_333_5)];
+    let steps: [(f32, f32); 9] = [(0.0, 1.0), (1.0, 0.0), (0.0, 10.0), (-1.0, 1.0), (0.25, 0.75), (5.0, 5.083_333_5), (100.0, 100.05), (-50.0, -50.02), (1.0e-3, 1.0e-3 + 1.0e-7)];
     let mut jobs: Vec<(f32, f32)> = Vec::new();
     for fs in rates {
         let mut t = 100.0 / fs;
@@ -464,7 +477,7 @@ pub fn c14(ctx: &Ctx) -> Report {
             lc.violation(v);
         }
     }
-    fn plane_job(fs: f32, t: f32, steps: &[(f32, f32); 6], lc: &mut LocalCounts) {
+    fn plane_job(fs: f32, t: f32, steps: &[(f32, f32); 9], lc: &mut LocalCounts) {
         {
             for &(a, b) in steps.iter() {
                 for from_rest in [true, false] {
@@ -485,7 +498,7 @@ pub fn c14(ctx: &Ctx) -> Report {
                         settle_and_step(&mut g, fs, t, a, b, nresp)
                     };
                     let mag = a.abs().max(b.abs());
-                    let a_rel = 2.0 * ulp32(mag) as f64 / one_minus_p(t, fs) / (b as f64 - a as f64).abs();
+                    let a_rel = 4.0 * ulp32(mag) as f64 / one_minus_p(t, fs) / (b as f64 - a as f64).abs();
                     lc.count("step_responses", 1);
                     if a_rel > 0.001 {
                         lc.count("step_responses_weak_allowance_exceeds_0.1_percent", 1);
@@ -554,7 +567,7 @@ pub fn c14(ctx: &Ctx) -> Report {
                     for _ in 0..nresp {
                         resp.push(g.process(1.0) as f64);
                     }
-                    let a_rel = 2.0 * ulp32(1.0) as f64 / one_minus_p(t, fs);
+                    let a_rel = 4.0 * ulp32(1.0) as f64 / one_minus_p(t, fs);
                     lc.count("integer_rate_step_responses", 1);
                     if criterion(t, fs, &resp, a_rel) == Some(false) {
                         let nn = ((t as f64 * fs as f64).round() as usize).max(1);
@@ -645,7 +658,7 @@ pub fn c14(ctx: &Ctx) -> Report {
             if set.0.len() > 1 {
                 lc.count("schedules_ending_inside_the_dead_band", 1);
             }
-            let a_rel = 2.0 * ulp32(b) as f64 / one_minus_p(tmax, fs) / (b - a) as f64;
+            let a_rel = 4.0 * ulp32(b) as f64 / one_minus_p(tmax, fs) / (b - a) as f64;
             let verdicts: Vec<Option<bool>> = set.0.iter().map(|e| criterion(*e, fs, &resp, a_rel)).collect();
             if verdicts.iter().any(|v| *v == Some(true)) {
                 lc.count("schedules_matching_an_allowed_time", 1);
